@@ -211,3 +211,42 @@ def subsets(items, max_size=None):
     top = len(items) if max_size is None else min(max_size, len(items))
     for r in range(top + 1):
         yield from itt.combinations(items, r)
+
+
+def mutate(gd, rng):
+    """One small edit: add/remove a directed or bidirected edge (acyclicity kept), or add a node."""
+    nodes = list(gd["nodes"])
+    di = [list(e) for e in gd["di"]]
+    bi = [list(e) for e in gd["bi"]]
+    from ..refgraph import RG
+
+    order = RG.make(nodes, [tuple(e) for e in di], []).topological_order()
+    pos = {v: i for i, v in enumerate(order)}
+    op = rng.choice(["add_di", "del_di", "add_bi", "del_bi", "add_di", "add_bi", "add_node"])
+    if op == "add_di" and len(nodes) >= 2:
+        a, b = rng.sample(nodes, 2)
+        if pos[a] > pos[b]:
+            a, b = b, a
+        if [a, b] not in di:
+            di.append([a, b])
+    elif op == "del_di" and di:
+        di.pop(rng.randrange(len(di)))
+    elif op == "add_bi" and len(nodes) >= 2:
+        a, b = rng.sample(nodes, 2)
+        if [a, b] not in bi and [b, a] not in bi:
+            bi.append([a, b])
+    elif op == "del_bi" and bi:
+        bi.pop(rng.randrange(len(bi)))
+    elif op == "add_node" and len(nodes) < 6:
+        new = next(f"V{i}" for i in range(20) if f"V{i}" not in nodes)
+        nodes.append(new)
+        other = rng.choice(nodes[:-1])
+        if rng.random() < 0.5:
+            di.append([other, new] if rng.random() < 0.5 else [new, other])
+        else:
+            bi.append([other, new])
+        # a new sink/source can never create a cycle
+    out = {"nodes": nodes, "di": di, "bi": bi, "hostile": "mutant"}
+    if not _acyclic(nodes, di):
+        return gd
+    return out
